@@ -1,5 +1,6 @@
 import Driver.StrPath
 import Driver.TileD
+import Driver.StreamD
 /-!
 # op2model — line-protocol driver for the executable model
 
@@ -9,7 +10,7 @@ Unknown or malformed commands print `bad-op` (never a default value).
 open Driver
 
 def handlers : List (String → List String → Option String) :=
-  [handleStrPath, handleTile]
+  [handleStrPath, handleTile, handleStream]
 
 def dispatch (line : String) : String :=
   match (line.trimAscii.toString.splitOn " ").filter (· ≠ "") with
